@@ -58,8 +58,15 @@ def _apply_text(sc, rel, old, new):
     return True
 
 
+UNDECIDED = {}
+
+
 def run(pid, seed=0):
     from selftest.catalogue import MUTANTS, BENIGN
+    up = os.path.join(VERIF, 'selftest', 'refactorings', 'UNDECIDED.json')
+    UNDECIDED.clear()
+    if os.path.exists(up):
+        UNDECIDED.update(json.load(open(up)))
     items = []
     for mid, props, rel, old, new, expect in MUTANTS:
         if pid in props:
@@ -118,6 +125,10 @@ def run(pid, seed=0):
             # ids starting with 'mv' only exist in a non-default build variant: the thorough tier's variant runs see them
             rc, inst, out = _run_check(pid, sc, 'thorough' if iid.startswith('mv') else 'quick')
             if kind == 'benign':
+                if rc == 2 and pid in UNDECIDED.get(iid, ()):
+                    # a listed shape the rules of this property do not follow: "not decided" is the documented outcome;
+                    # a VIOLATION (exit 1) on it would still be a false alarm
+                    return dict(id=iid, kind=kind, status='undecided', exit=rc, instances=inst[:4])
                 ok = rc == 0
                 return dict(id=iid, kind=kind, status='silent' if ok else 'FALSE-ALARM', exit=rc, instances=inst[:4])
             ok = rc == 1 and (expect is None or any(expect in i for i in inst))
